@@ -1,3 +1,5 @@
+/* (natively - replay - the real libc is used instead of these models) */
+#ifndef VERIF_NATIVE
 /* Executable models of libc functions CBMC has no model for; used only by the bounded,
  * harness-style jobs (inputs are short, loops are unwound with unwinding assertions). */
 #include <stddef.h>
@@ -47,3 +49,12 @@ double strtod(const char *s, char **end) {
 float strtof(const char *s, char **end) { return (float) strtod(s, end); }
 #include <stdlib.h>
 char *strndup(const char *s, size_t n) { size_t l = strnlen(s, n), i; char *r = malloc(l + 1); if (!r) return 0; for (i = 0; i < l; i++) r[i] = s[i]; r[l] = 0; return r; }
+
+/* byte-loop memcpy/memmove: with concrete lengths CBMC's symbolic execution constant-folds these, whereas its
+ * built-in array-copy model turns the buffer into an opaque array expression and everything parsed afterwards
+ * becomes symbolic */
+void *memcpy(void *d, const void *s, size_t n) { char *dd = d; const char *ss = s; size_t i; for (i = 0; i < n; i++) dd[i] = ss[i]; return d; }
+void *memmove(void *d, const void *s, size_t n) { char *dd = d; const char *ss = s; size_t i;
+    /* direction decided on the offsets (integers fold to constants during symbolic execution; the library only moves within one object) */
+    if (__CPROVER_POINTER_OFFSET(dd) <= __CPROVER_POINTER_OFFSET(ss)) { for (i = 0; i < n; i++) dd[i] = ss[i]; } else { for (i = n; i > 0; i--) dd[i - 1] = ss[i - 1]; } return d; }
+#endif /* VERIF_NATIVE */
